@@ -34,8 +34,8 @@ func New(seed []byte) kyber.XOF {
 		panic("blake2s.XOF.Write should not return error: " + err.Error())
 	}
 
-	seedCopy := make([]byte, len(seed2))
-	copy(seedCopy, seed2)
+	seedCopy := make([]byte, len(seed))
+	copy(seedCopy, seed)
 
 	return &xof{impl: b, seed: seedCopy}
 }
@@ -74,8 +74,14 @@ func (x *xof) Reseed() {
 }
 
 func (x *xof) Reset() {
-	x.impl.Reset()
-	_, _ = x.impl.Write(x.seed)
+	// Rebuild from the whole seed: after a Reseed, x.impl is keyed with
+	// different material, so resetting it in place would not return to the
+	// seeded initial state.
+	y, ok := New(x.seed).(*xof)
+	if !ok {
+		panic("y could not be casted to XOF")
+	}
+	x.impl = y.impl
 }
 
 func (x *xof) XORKeyStream(dst, src []byte) {
